@@ -94,6 +94,8 @@ func c14Gen(seed uint64, tier string) any {
 		switch r.Intn(7) {
 		case 6:
 			it.Raw = Pick(r, []string{"2d6d4", "3d4d6d8", "2d4d10", "(2d4)d6", "2d(2d4)", "d4d6", "2d6k1d4", "(d4+1)d6", "3d(d4)k2", "2d3d2d2", "d(2d4)",
+				// operands holding several rolls / loads of their own
+				"(d4+d6)d8", "(2d3)d(d4)", "(d4*2+d6-d3)d8", "(x+hp)d6", "(d4+d6)d(d3+d2)", "(d2+d2+d2)d4k2", "((d2+d3)d4+d2)d6", "(d4+力量)d2",
 				// blanks, tabs and line breaks after a parenthesised operand (the grammar swallows them) before the chain goes on
 				"2d(3) d4", "2d(3)\nd4", "2d6k(1) d4", "d(4)  d6", "2d(2)\td3", "(2d4) d6", "2d(3) d(2) d4", "3d(2) k2", "2d(3) 优势"})
 		case 0:
